@@ -240,6 +240,10 @@ func MonC04(r *Run, o *Obs) []Finding {
 		}
 		ri := &m.Regs[run.Reg]
 		feat := m.Features(run.Reg)
+		if ri.Reject == "(removed)" {
+			fs = append(fs, Finding{"removed-registration-ctor-ran", feat, fmt.Sprintf("%s ran (op%d) although every identity it was registered under has been removed from the collection", m.Describe(run.Reg), run.Op)})
+			continue
+		}
 		for k, a := range run.Args {
 			if k >= len(ri.Binds) {
 				break
